@@ -536,6 +536,19 @@ fn matrix_names() -> Vec<String> {
     ] {
         v.push(s.to_string());
     }
+    // every BMP scalar whose upper-case form is longer than one scalar: the scalar, the expansion, the expansion in lower case
+    for cp in 0u32..=0xFFFF {
+        if let Some(ch) = char::from_u32(cp) {
+            let up: String = ch.to_uppercase().collect();
+            if up.chars().count() > 1 {
+                for n in [ch.to_string(), up.clone(), up.to_lowercase()] {
+                    if !v.contains(&n) {
+                        v.push(n);
+                    }
+                }
+            }
+        }
+    }
     v
 }
 
